@@ -185,6 +185,7 @@ inductive BlocksRun (E : Env) (fl : Flags) (hdr : StreamFlags) :
       blockHeaderDecodeWith ((b0.toNat + 1) * 4) hdr.check (inp.take ((b0.toNat + 1) * 4)) = .ok h →
       (∃ n, validateChain (h.filters.map (·.id)) = .ok n) →
       blockDecode E hdr.check fl.ignoreCheck ((b0.toNat + 1) * 4) h (inp.drop ((b0.toNat + 1) * 4)) cap = b →
+      b.ret = .streamEnd →
       BlockFacts E hdr.check fl.ignoreCheck ((b0.toNat + 1) * 4) h (inp.drop ((b0.toNat + 1) * 4)) cap b →
       BlocksRun E fl hdr (blocks ++ [⟨b.compressed + (b0.toNat + 1) * 4 + checkSize hdr.check, b.out.length⟩])
         (inp.drop ((b0.toNat + 1) * 4 + b.consumed)) (cap - b.out.length) out' c' final →
@@ -251,7 +252,7 @@ theorem blocksLoop_streamEnd (E : Env) (fl : Flags) (hdr : StreamFlags) :
             simp only [] at hr
             obtain ⟨out', c', final, s2, hrun, hif, hs2, ho, hc⟩ := ih _ _ _ r' hrec hr
             refine ⟨b.out ++ out', (b0.toNat + 1) * 4 + b.consumed + c', final, s2, ?_, ?_, hs2, by simp [ho], by simp only []; omega⟩
-            · exact BlocksRun.block blocks (b0 :: tl) cap b0 tl h b out' c' final rfl h0' (by omega) hh ⟨n, hv⟩ hbd
+            · exact BlocksRun.block blocks (b0 :: tl) cap b0 tl h b out' c' final rfl h0' (by omega) hh ⟨n, hv⟩ hbd hbr'
                 (blockDecode_streamEnd _ _ _ _ _ _ _ _ hbd hbr') hrun
             · rw [← hif, List.drop_drop]
 
@@ -442,5 +443,39 @@ theorem xzLoop_events (E : Env) (fl : Flags) : ∀ (fuel : Nat) (first : Bool) (
           rcases he with he | he
           · exact streamOne_events _ _ _ _ _ e he
           · exact ih _ _ _ e he
+
+/-! ## the first Stream decides -/
+
+theorem xzLoop_of_not_streamEnd (E : Env) (fl : Flags) (fuel : Nat) (first : Bool) (inp : List UInt8) (cap : Nat)
+    (h : (streamOne E fl first inp cap).ret ≠ .streamEnd) :
+    xzLoop E fl (fuel + 1) first inp cap = streamOne E fl first inp cap := by
+  simp only [xzLoop]
+  rw [if_pos h]
+
+theorem xzDecode_ne_of_streamOne (E : Env) (fl : Flags) (x : List UInt8) (cap : Nat)
+    (h : (streamOne E fl true x cap).ret ≠ .streamEnd) : (xzDecode E fl x cap).ret ≠ .streamEnd := by
+  have hcall : xzCall E fl x cap = streamOne E fl true x cap := by
+    unfold xzCall; exact xzLoop_of_not_streamEnd E fl _ true x cap h
+  unfold xzDecode
+  simp only [hcall]
+  split
+  · simp
+  · exact h
+
+theorem xzCall_single (E : Env) (fl : Flags) (hnc : fl.concatenated = false) (x : List UInt8) (cap : Nat) :
+    xzCall E fl x cap = streamOne E fl true x cap := by
+  unfold xzCall
+  simp only [xzLoop, hnc]
+  split <;> rfl
+
+theorem xzDecode_single (E : Env) (fl : Flags) (hnc : fl.concatenated = false) (x : List UInt8) (cap : Nat)
+    (h : (xzDecode E fl x cap).ret = .streamEnd) : xzDecode E fl x cap = streamOne E fl true x cap := by
+  unfold xzDecode at h ⊢
+  simp only [xzCall_single E fl hnc] at h ⊢
+  split
+  · rename_i hok
+    rw [if_pos hok] at h
+    simp at h
+  · rfl
 
 end XzVerif.XzDecode
